@@ -230,6 +230,7 @@ var _ protoreflect.Message
 
 func runC19(c *gen.Ctx) error {
 	r := c.R
+	c19SrvGen(c)
 	c19SharpGen(c)
 	c19SuiteGen(c)
 	limit := cc.VerifC19ServerReceiveLimit()
